@@ -76,6 +76,23 @@ def rule_full_data(ctx):
     # R2 contiguity
     exts = Q.calls(b, ["extend_from_slice", "::extend", "::append"])
     if not exts:
+        # `segments.into_iter().for_each(|s| out.extend_from_slice(&s.data))`: the append sits in the closure of a for_each
+        from ..engine import lists as L0
+        for cb in L0.with_closures(P, b)[1:]:
+            CS = T.Slicer(cb, P)
+            for blk, t in Q.calls(cb, ["extend_from_slice", "::extend", "::append"]):
+                exts.append((blk, t))
+                conds = Q.canon_conds(P, T.dom_conds(cb, CS, blk))
+                guard = any(c[0] == "cmp" and any(x[0] == "field" and x[2] == "sequence" for y in (c[2], c[3]) for x in T.walk(y)) for c in conds)
+                ctx.check(guard, "R2", "get_full_data:contiguity",
+                          "each appended segment is compared with the expected next sequence number",
+                          "stored segments are concatenated without checking that each one starts where the previous one ended: after out-of-order arrival with a "
+                          "missing segment a head is assembled from non-contiguous bytes", ctx.loc(cb, blk))
+        if exts:
+            exts = [None]
+    if exts == [None]:
+        exts = []
+    elif not exts:
         # the same concatenation as an iterator chain: segments.iter().flat_map(|s| s.data..).collect()  /  .concat()
         from ..engine import lists as L
         lb = L.list_build(P, b)
